@@ -160,7 +160,7 @@ func runC14(seed int64, tier string, sc *Script) map[string]any {
 	// (a2) faults on the index maintenance itself, sequentially: an index that cannot be
 	// deleted is reported as such *after* the update took effect; an index that cannot be
 	// pushed leaves what was indexed before in place
-	for ri := 0; ri < 8; ri++ {
+	for ri := 0; ri < 12; ri++ {
 		sc.Case("referrers-index-fault")
 		sc.NonTrivial()
 		reg := newFakeRegistry(regProfile{ReferrersAPI: false, DigestHeaders: ri%2 == 0})
@@ -200,12 +200,15 @@ func runC14(seed int64, tier string, sc *Script) map[string]any {
 			}
 		}
 		before := listed()
-		kind := []string{"deny-index-delete", "fail-index-put"}[(ri/2)%2]
+		kind := []string{"deny-index-delete", "fail-index-put", "fail-index-get"}[(ri/2)%3]
 		reg.mu.Lock()
-		if kind == "deny-index-delete" {
+		switch kind {
+		case "deny-index-delete":
 			reg.denyIndexDelete = true
-		} else {
+		case "fail-index-put":
 			reg.failIndexPutOnce = true
+		default:
+			reg.failIndexGetOnce = true
 		}
 		reg.mu.Unlock()
 		d, b := mkRef(100)
@@ -225,7 +228,8 @@ func runC14(seed int64, tier string, sc *Script) map[string]any {
 			case after != want:
 				verdict = fmt.Sprintf("update-did-not-take-effect(listed=%s,want=%s)", after, want)
 			}
-		case "fail-index-put":
+		case "fail-index-put", "fail-index-get":
+			// (an index that cannot be read must not be taken for an empty one)
 			switch {
 			case perr == nil:
 				verdict = "failed-index-push-not-reported"
